@@ -191,11 +191,12 @@ def evaluate(cases, cfg, tag):
     for c, m, s in zip(cases, model, spec):
         # (wf_case d ops, check_case ..): the first component says whether the history satisfies the
         # hypotheses of the run-level theorems (WorldInv.wf_case_never_ub)
-        mm = re.match(r'^\((true|false), (.*)\)$', m)
+        mm = re.match(r'^\((true|false), (true|false), (.*)\)$', m)
         if not mm:
             raise Internal('unexpected model result: ' + m[:200])
         c['wf'] = (mm.group(1) == 'true')
-        m = mm.group(2)
+        c['hist'] = (mm.group(2) == 'true')
+        m = mm.group(3)
         diff = None if m == 'None' else (coqrun.parse_diff(m) or m)
         sf = None
         if s != 'None':
@@ -271,6 +272,7 @@ def run_streams(pid, streams, cfgname, binary, seed, scale, corpus=True):
                     stats['outcomes'][tag] = stats['outcomes'].get(tag, 0) + 1
         results += evaluate(cases, cfg, '%s-%s-%s-%s' % (pid, cfgname, wname, profile))
     stats['wf_histories'] = sum(1 for r in results if r['case'].get('wf'))
+    stats['hist_histories'] = sum(1 for r in results if r['case'].get('hist'))
     return results, stats
 
 
@@ -611,7 +613,7 @@ def check(pid, tier, seed):
             rule='histories generated interactively from VERIF_SEED per stream; non-trivial = at least 10 operations including every kind in %s; distinct by the hash of the operation list' % sorted(need),
             traces_validated_against_impl=total_cases,
             model_disagreements=len(diffs), spec_failures=len(own),
-            streams=[dict(config=cn, cases=s['cases'], ops=s['ops'], histories_meeting_run_theorem_hypotheses=s.get('wf_histories', 0), ops_by_kind=s['by_kind'], outcomes=s['outcomes']) for cn, s in stats_all],
+            streams=[dict(config=cn, cases=s['cases'], ops=s['ops'], histories_meeting_run_theorem_hypotheses=s.get('wf_histories', 0), histories_meeting_history_theorem_hypotheses=s.get('hist_histories', 0), ops_by_kind=s['by_kind'], outcomes=s['outcomes']) for cn, s in stats_all],
             samples=([sample] if sample else []) + ([macro_info['sample']] if macro_info else []),
             macro=macro_info, c18=c18_info, programs=(c18_info['programs'] if c18_info else 0),
             exhaustive=any(r['case'].get('exhaustive') for r in all_results) if pid == 'C11' else False,
